@@ -48,7 +48,9 @@ Hypothesis Q_cons : forall tok rest lr, Q rest lr -> Q (tok :: rest) lr.
 Hypothesis Q_done : forall toks st, Q toks (LDone st).
 Hypothesis Q_help : forall tok rest st, Q (tok :: rest) (LHelpSub rest st).
 Hypothesis Q_sub : forall tok rest n vaf st, Q (tok :: rest) (LSub n false vaf st rest).
-Hypothesis Q_keep : forall tok rest n vaf st, Q (tok :: rest) (LSub n true vaf st (tok :: rest)).
+Hypothesis Q_keep : forall tok rest n vaf st r pst pc vaf0 st0 a d,
+  to_short tok = Some r -> parse_short_arg c r pst pc vaf0 st0 = ROk (st, PRFlagSub n, vaf) -> fs_at st = Some a ->
+  Q (tok :: rest) (LSub n true vaf (st <| fs_skip := d + 1 |>) (tok :: rest)).
 Hypothesis Q_ext : forall tok rest st, is_set s_allow_external c = true -> Q (tok :: rest) (LExternal tok rest st).
 
 Lemma gx_cons tok rest (r : res loop_res) : gx (Q rest) r -> gx (Q (tok :: rest)) r.
@@ -99,12 +101,13 @@ Proof.
     { apply gx_bindT. intros [[st1 pr] vaf1]. cbn [fst snd].
       pose proof (After (st1, pr, vaf1)) as HA.
       destruct pr; try exact I; exact HA. }
-    destruct (to_short tok) as [r|]; [|exact I].
-    apply gx_bindT. intros [[st1 pr] vaf1].
+    destruct (to_short tok) as [r|] eqn:Es; [|exact I].
+    destruct (parse_short_arg c r (l_pst ls) (l_pos ls) (l_vaf ls) st) as [[[st1 pr] vaf1]|e0 s0|x0] eqn:Eps;
+      cbn [rbind]; [|exact I|exact I].
     pose proof (After (st1, pr, vaf1)) as HA.
     destruct pr; try exact I; try exact HA.
-    destruct (fs_at st1) as [a|]; [|cbn; apply Q_sub].
-    destruct (checked_sub (cur_idx st1) a); cbn [expect rbind]; [cbn; apply Q_keep|exact I]. }
+    destruct (fs_at st1) as [a|] eqn:Ea; [|cbn; apply Q_sub].
+    destruct (checked_sub (cur_idx st1) a) as [d|]; cbn [expect rbind]; [cbn; eapply Q_keep; eassumption|exact I]. }
   eapply gx_bind; [exact Hph|]. clear Hph phase1.
   intros [[early ls1] st1] H1. unfold early_okq in H1. cbn [fst snd] in H1.
   destruct early as [r|]; [exact H1|]. clear H1.
@@ -154,8 +157,8 @@ Theorem external_guarded c toks ls st name vals st' :
 Proof.
   intros H.
   pose proof (gx_parse_loop c (fun _ lr => match lr with LExternal _ _ _ => is_set s_allow_external c = true | _ => True end)) as G.
-  specialize (G (fun _ _ _ H => H) (fun _ _ => I) (fun _ _ _ => I) (fun _ _ _ _ _ => I) (fun _ _ _ _ _ => I)
-                (fun _ _ _ H => H) toks ls st).
+  specialize (G (fun _ _ _ H => H) (fun _ _ => I) (fun _ _ _ => I) (fun _ _ _ _ _ => I)
+                (fun _ _ _ _ _ _ _ _ _ _ _ _ _ _ _ => I) (fun _ _ _ H => H) toks ls st).
   rewrite H in G. exact G.
 Qed.
 
@@ -174,7 +177,7 @@ Proof.
     - intros; exact I.
     - intros; exact I.
     - intros tok rest n vaf st. exists [tok]. reflexivity.
-    - intros tok rest n vaf st. exists []. reflexivity.
+    - intros. exists []. reflexivity.
     - intros; exact I. }
   rewrite H in G'. exact G'.
 Qed.
